@@ -196,7 +196,7 @@ def localizedMessage (b : Bytes) : Option LocalizedMessage := do
   pure ⟨← stringField 1 fs, ← stringField 2 fs⟩
 
 /-- the type URL under which a `google.protobuf.Any` carries message `google.rpc.<name>` -/
-def urlOf (name : String) : Bytes := asciiBytes ("type.googleapis.com/google.rpc." ++ name)
+def urlOf (name : String) : Bytes := asciiBytes "type.googleapis.com/" ++ asciiBytes "google.rpc." ++ asciiBytes name
 
 /-- the detail an `Any` stands for: `none` = one of the ten types but not decodable,
 `some none` = some other type -/
